@@ -213,24 +213,43 @@ Proof. split; repeat constructor. Qed.
 
 (* ====================================================================================== *)
 (* C18, HTTP cluster leg (runnables/httpcluster).  Models: ClusterLTS.v (the Run loop, C16) and
-   ClusterGo.v (the goroutine census on top of it: [g_run] = server instances whose
-   createAndStartServer goroutine is alive; [helpers] = stopServers goroutines; [main_alive] = the
-   goroutine inside Run).  A schedule is any list of labels: any sequence of config maps over any
-   ids (restarts of the same id included), factory errors, servers that never become ready or
-   report Error, slow Stop()s, Stop()/cancel/close(siphon) at any point, servers' Run returning at
-   any time after it was called.  [settledb g]: no server goroutine of [g_run] is still owed by the
-   environment (Stop() has not returned for it and the parent context is live) or has yet to call
-   Run - the states in which the harness compares the census with the real goroutine dump.
-   Statements only. *)
-From GS Require Import Cluster ClusterLTS ClusterMain ClusterGo ClusterCensus.
+   ClusterGo.v on top of it: [g_run] = server instances whose createAndStartServer goroutine is alive
+   (from the factory call until the server's Run returns); [helpers] = stopServers goroutines;
+   [main_alive] = the goroutine inside Run; [g_cx] / [g_rc] = server contexts cancelled by the cluster
+   (entry.cancel() after Stop() returned, serverCancel() of a failed start; runCancel() on the Stop()
+   path).  A schedule is any list of labels: any sequence of config maps over any ids (restarts of the
+   same id included), factory errors, servers that never become ready or report Error, servers that
+   give up by themselves, slow Stop()s, Stop()/cancel/close(siphon) at any point; a server's Run
+   returns only after its Stop() was called or its context was cancelled (or by itself, once ready).
+   [obliged g i]: the Runnable contract obliges server goroutine i to end - its Stop() has returned,
+   or its context is cancelled (its own, the one given to Run, or runCtx through the Stop() path's
+   runCancel()).  [settledb g]: no goroutine of [g_run] is obliged or has yet to call Run - the states
+   in which the harness compares the census with the real goroutine dump.  Statements only. *)
+From GS Require Import Cluster ClusterLTS ClusterMain ClusterGo ClusterLive ClusterCensus.
 Open Scope nat_scope.
 
-(* (i) After Run() has returned - whatever the history - no goroutine of the cluster is left once
-   the servers have honoured their contract. *)
-Theorem C18_cluster_clean : forall d g,
+(* (i) After Run() has returned - whatever the history - the only goroutines left are server
+   goroutines, and each of them belongs to an instance whose Stop() HAS RETURNED earlier in that
+   history (a label of the schedule, not a state flag): the cluster stopped every server it ever
+   started, and only the servers' own obligation to leave Run keeps the goroutines alive. *)
+Theorem C18_cluster_clean : forall d ls g,
+  run (gstep true) (ginit d) ls = Some g -> ClusterLTS.s_pc (g_s g) = PRet ->
+  ClusterGo.census g = length (g_run g) /\
+  forall i, In i (g_run g) -> In (GB (LStopRet i)) ls /\ obliged g i = true.
+Proof. exact cluster_clean_hist. Qed.
+
+(* ... so once the servers have honoured their contract nothing is left ... *)
+Theorem C18_cluster_clean_settled : forall d g,
   reachable (gstep true) (ginit d) g -> ClusterLTS.s_pc (g_s g) = PRet -> settledb g = true ->
   ClusterGo.census g = 0.
 Proof. exact cluster_census_clean. Qed.
+
+(* ... and they can: from every state in which Run() has returned, steps of the environment alone
+   (servers entering and leaving Run) lead to a state with census 0.  The cluster blocks none of them. *)
+Theorem C18_cluster_returned_drains : forall d ls g,
+  run (gstep true) (ginit d) ls = Some g -> ClusterLTS.s_pc (g_s g) = PRet ->
+  exists ls' g', run (gstep true) g ls' = Some g' /\ Forall env_label ls' /\ ClusterGo.census g' = 0.
+Proof. exact cluster_returned_drains. Qed.
 
 (* (ii) While running, at every settled point: 1 (Run) + one goroutine per server started and not
    yet stopped + one helper per pending Stop(), and there are never more helpers than such servers.
@@ -248,19 +267,20 @@ Theorem C18_cluster_bounded_idle : forall d g,
 Proof. exact cluster_census_idle. Qed.
 
 (* (iii) In EVERY reachable state, settled or not, the only goroutines beyond that bound are server
-   goroutines whose Stop() has already returned ([zombies]: the Runnable contract obliges them to
-   end) ... *)
+   goroutines whose Stop() has already returned ([zombies]).  Their number is NOT bounded by the
+   configuration: it is the number of stopped servers that have not yet left Run, i.e. it depends on
+   how promptly the environment honours the contract, not on anything the cluster does. *)
 Theorem C18_cluster_bounded_all_states : forall d g,
   reachable (gstep true) (ginit d) g ->
   ClusterGo.census g <= 1 + 2 * started_not_stopped (g_s g) + length (zombies g).
 Proof. exact cluster_census_all_states. Qed.
 
-(* ... and the cluster never blocks one of them: a server goroutine can always take its next step
-   (call Run if it has not yet, otherwise return and end). *)
+(* DEFINITIONAL (restates the guards of LRunCall / GRunRet; the reachability statement is
+   C18_cluster_returned_drains): an obliged server goroutine has an enabled step of its own. *)
 Theorem C18_cluster_server_goroutine_can_end : forall fx g i,
-  In i (g_run g) ->
+  In i (g_run g) -> obliged g i = true ->
   if memN i (s_unrun (g_s g))
-  then exists s', ClusterLTS.step fx (g_s g) (ClusterLTS.LRunCall i) = Some s'
+  then exists g', gstep fx g (GB (ClusterLTS.LRunCall i)) = Some g' /\ g_run g' = g_run g
   else exists g', gstep fx g (GRunRet i) = Some g' /\ g_run g' = removeN i (g_run g).
 Proof. exact cluster_owed_can_end. Qed.
 
@@ -277,6 +297,8 @@ Theorem C18_cluster_schedules_project : forall fx ls g g',
 Proof. exact grun_erase. Qed.
 
 Print Assumptions C18_cluster_clean.
+Print Assumptions C18_cluster_clean_settled.
+Print Assumptions C18_cluster_returned_drains.
 Print Assumptions C18_cluster_bounded.
 Print Assumptions C18_cluster_bounded_idle.
 Print Assumptions C18_cluster_bounded_all_states.
@@ -284,19 +306,37 @@ Print Assumptions C18_cluster_server_goroutine_can_end.
 Print Assumptions C18_cluster_observation_sound.
 Print Assumptions C18_cluster_schedules_project.
 
-(* non-vacuity: three rounds on the same id (start; restart with a never-ready replacement next to a
-   factory error; start again), census observed in between, cancel, shutdown: Run returned, settled,
-   census 0.  And the bound of (ii) is attained: two servers both inside slow Stop()s. *)
+(* non-vacuity: three rounds on the same id (start; restart with a never-ready replacement - whose
+   context is cancelled before its Stop() - next to a factory error; start again), census observed in
+   between, cancel, shutdown: Run returned, settled, census 0.  The bound of (ii) is attained: two
+   servers both inside slow Stop()s.  The hypotheses of (i) / the definitional theorem with a goroutine
+   left: the same schedule cut before the last server leaves Run.  The Stop() path: runCancel() makes
+   every server owed at once (not settled), a server that gave up by itself is still counted. *)
 Example C18_ex_cluster_clean_run :
   exists g, run (gstep true) (ginit false) census_schedule = Some g /\
             ClusterLTS.s_pc (g_s g) = PRet /\ settledb g = true /\ ClusterGo.census g = 0 /\
             s_next (g_s g) = 3%N.
 Proof. exact census_schedule_runs. Qed.
+Example C18_ex_cluster_returned_owed :
+  exists g, run (gstep true) (ginit false) (removelast (removelast census_schedule)) = Some g /\
+            ClusterLTS.s_pc (g_s g) = PRet /\ g_run g = [2%N] /\ obliged g 2%N = true /\
+            In (GB (LStopRet 2%N)) (removelast (removelast census_schedule)) /\
+            memN 2%N (s_unrun (g_s g)) = false.
+Proof. eexists. split; [vm_compute; reflexivity|]. repeat split. vm_compute. auto 50. Qed.
 Example C18_ex_cluster_peak :
   exists g, run (gstep true) (ginit false) census_schedule_peak = Some g /\
             settledb g = true /\ ClusterGo.census g = 5 /\ started_not_stopped (g_s g) = 2 /\
             helpers (g_s g) = 2.
 Proof. exact census_schedule_peak_runs. Qed.
+Example C18_ex_cluster_stop_path :
+  exists g, run (gstep true) (ginit false) census_schedule_stop = Some g /\
+            settledb g = false /\ g_rc g = true /\ obliged g 0%N = true /\ g_self g = [1%N] /\
+            g_run g = [0%N] /\ ClusterGo.census g = 4.
+Proof. exact census_schedule_stop_runs. Qed.
+Example C18_ex_cluster_idle :
+  exists g, run (gstep true) (ginit false) (firstn 7 census_schedule) = Some g /\
+            settledb g = true /\ ClusterLTS.s_pc (g_s g) = PIdle /\ ClusterGo.census g = 2.
+Proof. eexists. split; [vm_compute; reflexivity|]. repeat split. Qed.
 
 (* ====================================================================================== *)
 (* C18, internal/finitestate leg (subscriptions of every bundled runnable and of the supervisor's
